@@ -34,9 +34,9 @@ import (
 //	consumed(node) <= capacity(node) = Amplify(raw capacity)        after every Allocate + Update
 //
 // i.e. an allocation never takes more out of a NUMA node than the node had free, measured in the unit the capacity is
-// expressed in.  Fingerprint C06:numa-amplified-bind-overcharge.  The stream is OFF unless VERIF_C06_AMPBIND=1
+// expressed in.  Fingerprint C06:numa-amplified-bind-overcharge.  The stream is ON by default (open known finding; VERIF_C06_AMPBIND=0 turns it off)
 // (the unchanged tree violates the clause; replay with the same variable set).
-var c06AmpBind = os.Getenv("VERIF_C06_AMPBIND") == "1"
+var c06AmpBind = os.Getenv("VERIF_C06_AMPBIND") != "0" // on by default: open known finding C06:numa-amplified-bind-overcharge
 
 const c06AmpBindCases = 48
 
